@@ -15,6 +15,24 @@ use std::path::Path;
 use maplit::btreeset;
 use structopt::StructOpt;
 
+/// Do two output paths name one file? Also when they are spelled differently (`out.hex` and
+/// `./out.hex`) or when one is a link to the other.
+fn same_output(a: &Path, b: &Path) -> bool {
+    // the files need not exist yet: resolve the directories, compare the names
+    let resolved = |p: &Path| {
+        let parent = match p.parent() {
+            Some(parent) if !parent.as_os_str().is_empty() => parent,
+            _ => Path::new("."),
+        };
+        match (p.canonicalize(), parent.canonicalize(), p.file_name()) {
+            (Ok(full), _, _) => Some(full),
+            (_, Ok(parent), Some(name)) => Some(parent.join(name)),
+            _ => None,
+        }
+    };
+    a == b || (resolved(a).is_some() && resolved(a) == resolved(b))
+}
+
 fn main() {
     let opt = Opt::from_args();
 
@@ -46,8 +64,9 @@ fn main() {
     match build_file(opt.source.clone(), btreeset! { get_standard_includes() }) {
         Ok(built) => {
             // one file cannot hold both images
-            let same_file =
-                !built.code.is_empty() && !built.eeprom.is_empty() && code_path == eeprom_path;
+            let same_file = !built.code.is_empty()
+                && !built.eeprom.is_empty()
+                && same_output(&code_path, &eeprom_path);
             if same_file {
                 failed = true;
                 println!(
@@ -59,7 +78,7 @@ fn main() {
             // write to file code
             if same_file {
             } else if !built.code.is_empty() {
-                match write_code_hex(code_path, &built) {
+                match write_code_hex(code_path.clone(), &built) {
                     Ok(()) => {}
                     Err(e) => {
                         failed = true;
@@ -74,6 +93,17 @@ fn main() {
             }
             // write to file eeprom
             if same_file {
+            } else if !built.code.is_empty()
+                && !built.eeprom.is_empty()
+                && same_output(&code_path, &eeprom_path)
+            {
+                // (a link to the flash file that could only be resolved now that the file exists)
+                failed = true;
+                println!(
+                    "Failed to generate and write hex file {}, with error the EEPROM image would overwrite the flash image in {}",
+                    file_name,
+                    code_path.to_string_lossy()
+                );
             } else if !built.eeprom.is_empty() {
                 match write_eeprom_hex(eeprom_path, &built) {
                     Ok(()) => {}
